@@ -408,12 +408,14 @@ class LogicalLinkController(object):
             self.mac.deactivate(release=False)  # use DESELECT
         if type(self.mac) == nfc.dep.Target:
             self.mac.deactivate(data=bytearray(b"\x01\x40"))
-        # shutdown local services
-        for i in range(63, -1, -1):
-            if not self.sap[i] is None:
-                log.debug("closing service access point %d" % i)
-                self.sap[i].shutdown()
-                self.sap[i] = None
+        # shutdown local services, under the lock so that no socket can
+        # be bound to an access point that was already visited
+        with self.lock:
+            for i in range(63, -1, -1):
+                if not self.sap[i] is None:
+                    log.debug("closing service access point %d" % i)
+                    self.sap[i].shutdown()
+                    self.sap[i] = None
         self.link.SHUTDOWN = True
 
     def exchange(self, send_pdu, timeout):
@@ -733,16 +735,21 @@ class LogicalLinkController(object):
             raise err.Error(errno.ENOTSOCK)
         if socket.addr is not None:
             raise err.Error(errno.EINVAL)
-        if addr_or_name is None:
-            self._bind_by_none(socket)
-        elif isinstance(addr_or_name, int):
-            self._bind_by_addr(socket, addr_or_name)
-        elif isinstance(addr_or_name, (bytes, bytearray)):
-            self._bind_by_name(socket, bytes(addr_or_name))
-        elif isinstance(addr_or_name, str):
-            self._bind_by_name(socket, addr_or_name.encode('latin'))
-        else:
-            raise err.Error(errno.EFAULT)
+        with self.lock:
+            if self.sap[0] is None:
+                # terminate() removed all access points, nothing would
+                # ever serve a socket that is bound now
+                raise err.Error(errno.ESHUTDOWN)
+            if addr_or_name is None:
+                self._bind_by_none(socket)
+            elif isinstance(addr_or_name, int):
+                self._bind_by_addr(socket, addr_or_name)
+            elif isinstance(addr_or_name, (bytes, bytearray)):
+                self._bind_by_name(socket, bytes(addr_or_name))
+            elif isinstance(addr_or_name, str):
+                self._bind_by_name(socket, addr_or_name.encode('latin'))
+            else:
+                raise err.Error(errno.EFAULT)
 
     def _bind_by_none(self, socket):
         with self.lock:
